@@ -2,12 +2,35 @@ from __future__ import annotations
 
 from typing import Any
 
+import numpy as np
 from jax import numpy as jnp
 from jaxtyping import Array
 
 
 def try_cast(x: Any) -> Array | None:
+    """Cast to a real-valued array, or return None for anything that is not one."""
+    if isinstance(x, (int, np.integer, np.ndarray)):
+        numpy_x = np.asarray(x)
+        int32 = np.iinfo(np.int32)
+        if (
+            numpy_x.dtype.kind in "iu"
+            and numpy_x.dtype.itemsize > 4
+            and numpy_x.size > 0
+            and (numpy_x.max() > int32.max or numpy_x.min() < int32.min)
+        ):
+            # 64-bit integers would silently wrap around when narrowed to 32 bits
+            x = numpy_x.astype(np.float64)
+
     try:
-        return jnp.asarray(x)
-    except TypeError:
+        array = jnp.asarray(x)
+    except (TypeError, ValueError, OverflowError):
         return None
+
+    if not (
+        jnp.issubdtype(array.dtype, jnp.floating)
+        or jnp.issubdtype(array.dtype, jnp.integer)
+        or jnp.issubdtype(array.dtype, jnp.bool_)
+    ):
+        return None
+
+    return array
